@@ -26,15 +26,18 @@ stateVars == <<index, cons, rootMain, head>>
 vars == <<stateVars, last>>
 
 (* the universe used for behaviour generation and trace validation (the replay builds real headers for it)     *)
-(*   g - a1 - a2 - a3 - a4        b2/c2 share a state root, so do c3/d3; m1 breaks the timestamp rule          *)
+(*   g - a1 - a2 - a3 - a4        b2/c2 share a state root, so do c3/d3; m1 breaks the timestamp rule;         *)
+(*   a1 used less gas than its target, b1 more: n2 (child of a1, base fee one too low) and p2 (child of b1,    *)
+(*   base fee not raised) break the base-fee rule; k1 raises the gas limit by exactly parent/1024 (one too     *)
+(*   much), l1 by one less (allowed)                                                                            *)
 (*     \ b1 - b2 - b3                                                                                          *)
 (*          \ c2 - c3                                                                                           *)
 (*               \ d3                                                                                           *)
-GenUniverse == {"a1", "a2", "a3", "a4", "b1", "b2", "b3", "c2", "c3", "d3", "m1"}
-GenParent == [a1 |-> "g", a2 |-> "a1", a3 |-> "a2", a4 |-> "a3", b1 |-> "g", b2 |-> "b1", b3 |-> "b2", c2 |-> "b1", c3 |-> "c2", d3 |-> "c2", m1 |-> "g"]
-GenHeight == [a1 |-> 1, a2 |-> 2, a3 |-> 3, a4 |-> 4, b1 |-> 1, b2 |-> 2, b3 |-> 3, c2 |-> 2, c3 |-> 3, d3 |-> 3, m1 |-> 1]
-GenRoot   == [a1 |-> "ra1", a2 |-> "ra2", a3 |-> "ra3", a4 |-> "ra4", b1 |-> "rb1", b2 |-> "rb2", b3 |-> "rb3", c2 |-> "rb2", c3 |-> "rc3", d3 |-> "rc3", m1 |-> "rm1"]
-GenValid  == [a1 |-> TRUE, a2 |-> TRUE, a3 |-> TRUE, a4 |-> TRUE, b1 |-> TRUE, b2 |-> TRUE, b3 |-> TRUE, c2 |-> TRUE, c3 |-> TRUE, d3 |-> TRUE, m1 |-> FALSE]
+GenUniverse == {"a1", "a2", "a3", "a4", "b1", "b2", "b3", "c2", "c3", "d3", "m1", "n2", "p2", "k1", "l1"}
+GenParent == [a1 |-> "g", a2 |-> "a1", a3 |-> "a2", a4 |-> "a3", b1 |-> "g", b2 |-> "b1", b3 |-> "b2", c2 |-> "b1", c3 |-> "c2", d3 |-> "c2", m1 |-> "g", n2 |-> "a1", p2 |-> "b1", k1 |-> "g", l1 |-> "g"]
+GenHeight == [a1 |-> 1, a2 |-> 2, a3 |-> 3, a4 |-> 4, b1 |-> 1, b2 |-> 2, b3 |-> 3, c2 |-> 2, c3 |-> 3, d3 |-> 3, m1 |-> 1, n2 |-> 2, p2 |-> 2, k1 |-> 1, l1 |-> 1]
+GenRoot   == [a1 |-> "ra1", a2 |-> "ra2", a3 |-> "ra3", a4 |-> "ra4", b1 |-> "rb1", b2 |-> "rb2", b3 |-> "rb3", c2 |-> "rb2", c3 |-> "rc3", d3 |-> "rc3", m1 |-> "rm1", n2 |-> "rn2", p2 |-> "rp2", k1 |-> "rk1", l1 |-> "rl1"]
+GenValid  == [a1 |-> TRUE, a2 |-> TRUE, a3 |-> TRUE, a4 |-> TRUE, b1 |-> TRUE, b2 |-> TRUE, b3 |-> TRUE, c2 |-> TRUE, c3 |-> TRUE, d3 |-> TRUE, m1 |-> FALSE, n2 |-> FALSE, p2 |-> FALSE, k1 |-> FALSE, l1 |-> TRUE]
 
 All == Universe \cup {"g"}
 H(x) == IF x = "g" THEN 0 ELSE Height[x]
